@@ -188,6 +188,14 @@ def step (nd : Node) (ws : List String) : Node × String :=
         (r.1, if r.2 then "err flush-failed" else "ok")
       else bad
     | _, _ => bad
+  | ["ievict", sh, m] =>
+    -- the LRU sequence cache of one shard drops metric m's entry (eviction / expiry)
+    match sh.toNat?, m.toNat? with
+    | some sh, some m =>
+      if sh < nd.nShards then
+        (nd.setShard sh ((nd.shards sh).evictSeq m), if ((nd.shards sh).seqCache m).isSome then "evicted" else "absent")
+      else bad
+    | _, _ => bad
   | ["mflushcrash", k] =>
     match k.toNat? with
     | some k => if k ≤ 5 then ((nd.metaFlushPrefix k).recover, "ok") else bad
